@@ -540,6 +540,24 @@ class Effects:
                 m = self.p.lookup_method(t, "__and__" if isinstance(n.op, ast.BitAnd) else "__or__")
                 if m is not None:
                     outs.append((m, {}, ()))
+        elif isinstance(n, (ast.If, ast.While, ast.IfExp, ast.Assert, ast.BoolOp)) or (
+                isinstance(n, ast.UnaryOp) and isinstance(n.op, ast.Not)):
+            # truth value of a package object: __bool__ if defined, else __len__
+            if isinstance(n, ast.BoolOp):
+                operands = list(n.values)
+            elif isinstance(n, ast.UnaryOp):
+                operands = [n.operand]
+            else:
+                operands = [n.test]
+            for e in operands:
+                if isinstance(e, (ast.BoolOp, ast.UnaryOp, ast.Compare, ast.Call, ast.Constant)):
+                    continue
+                t = self.r.type_of(e, f)
+                if t:
+                    m = self.p.lookup_method(t, "__bool__") or self.p.lookup_method(t, "__len__")
+                    if m is not None:
+                        for mm in self._storage_filter([m], storage):
+                            outs.append((mm, {}, ()))
         elif isinstance(n, ast.Compare) and len(n.ops) == 1 and isinstance(n.ops[0], (ast.Eq, ast.NotEq)):
             t = self.r.type_of(n.left, f)
             if t:
